@@ -133,6 +133,16 @@ class _Node(nn.Module):
         if self.is_mutable_collection(op['col']):
           v.value = op['m'] * v.value + (1 - op['m']) * jnp.mean(x)
         x = x + v.value
+      elif k == 'listvar':
+        # a variable whose value is a Python list of arrays, used with list
+        # operations (a tuple in its place would raise)
+        v = objs[i] if objs is not None else self.variable(
+            op['col'], op['name'],
+            lambda: [jnp.zeros((), jnp.float32), jnp.ones((), jnp.float32)])
+        hist = v.value + [jnp.mean(x)]
+        if self.is_mutable_collection(op['col']):
+          v.value = hist[1:]
+        x = x + 0.25 * hist[0] + 0.5 * hist[1]
       elif k == 'sow':
         self.sow(op['col'], op['name'], x)
       elif k == 'perturb':
@@ -540,9 +550,14 @@ def op_strategy(inner, allow, style):
                           st.sampled_from(VARNAMES),
                           st.sampled_from([0.5, 0.9])).map(
         lambda t: {'op': 'stat', 'col': t[0], 'name': t[1], 'm': t[2]}))
+  if 'listvar' in allow and style == 'compact':
+    opts.append(st.sampled_from(['h', 'hist']).map(
+        lambda n: {'op': 'listvar', 'col': 'cache', 'name': n}))
   if 'sow' in allow and style == 'compact':
+    # (a sown name may equal the name of a param / variable of another
+    # collection in the same scope: legal)
     opts.append(st.tuples(st.sampled_from(SOW_COLS),
-                          st.sampled_from(['s0', 's1'])).map(
+                          st.sampled_from(['s0', 's1', 'w', 'v'])).map(
         lambda t: {'op': 'sow', 'col': t[0], 'name': t[1]}))
   if 'perturb' in allow and style == 'compact':
     # (one dtype per name: a perturbation variable is shared by name)
